@@ -660,10 +660,11 @@ func (g Gateway) GetByIndexStream(in *hydrapb.GetByIndexStreamRequest, stream hy
 	var treasures []treasure.Treasure
 	var residualFilters *hydrapb.FilterGroup
 
-	if plan.Mode != PlanModeBypass && bucketExecPreconditions(beaconType) {
+	if plan.Mode != PlanModeBypass && bucketExecPreconditions(beaconType, in.GetFrom(), in.GetLimit()) {
 		// Bucket-routed: pull candidates from the auto-built index,
-		// then apply time-range, sort, paging, residual predicate.
+		// then apply index membership, time-range, sort, residual predicate.
 		candidates := collectBucketCandidates(swampInterface, plan.Hints)
+		candidates = dropUnindexed(candidates, beaconType)
 		candidates = applyTimeRange(candidates, beaconType, fromTime, toTime)
 		sortCandidates(candidates, beaconType, order)
 		treasures = applyFromLimit(candidates, in.GetFrom(), in.GetLimit())
@@ -799,8 +800,9 @@ func (g Gateway) GetByIndexStreamFromMany(in *hydrapb.GetByIndexStreamFromManyRe
 			var treasures []treasure.Treasure
 			var residualFilters *hydrapb.FilterGroup
 
-			if plan.Mode != PlanModeBypass && bucketExecPreconditions(beaconType) {
+			if plan.Mode != PlanModeBypass && bucketExecPreconditions(beaconType, query.GetFrom(), query.GetLimit()) {
 				candidates := collectBucketCandidates(swampInterface, plan.Hints)
+				candidates = dropUnindexed(candidates, beaconType)
 				candidates = applyTimeRange(candidates, beaconType, fromTime, toTime)
 				sortCandidates(candidates, beaconType, order)
 				treasures = applyFromLimit(candidates, query.GetFrom(), query.GetLimit())
